@@ -8,8 +8,8 @@
     sidecars, and a second directory that receives merge results.  [run ops w] performs any
     sequence of: open (six modes, by name or by explicit list, either class), reads,
     [create_patch], overlay writes, [discard_patch], [commit_patch], [merge_files] (into
-    the same or the other directory), [close] (with or without commit), giving up the
-    handle, [delete_files].  [safe_for ops nm]: no operation of [ops] is an open in mode
+    the same or the other directory), [create_stub] (into the same or the other directory),
+    [close] (with or without commit), giving up the handle, [delete_files].  [safe_for ops nm]: no operation of [ops] is an open in mode
     'w' of, or [delete_files] on, a record the file name [nm] belongs to — the two
     explicitly truncating operations.  [good w]: file names are pairwise distinct and a
     pending patch of the open handle is its newest file and uncommitted; it holds in the
@@ -19,7 +19,8 @@
     payload and the manifest link; that the running code rewrites no byte is observed by
     the SHA-256 monitor of harness/props/c02.py. *)
 From Coq Require Import List String NArith Bool.
-From MV Require Import Rec.Names Rec.Modes Rec.Frozen Rec.FrozenProofs.
+From MV Require Import Rec.Names Rec.Modes Rec.Frozen Rec.FrozenProofs Rec.FrozenChain.
+From MV Require Rec.Chain.
 Import ListNotations.
 Local Open Scope string_scope.
 
@@ -136,6 +137,52 @@ Theorem C02_chains_stay_coherent : forall (P : Type) (empty : P) (mergepay : lis
 Proof. exact @run_ginv. Qed.
 Print Assumptions C02_chains_stay_coherent.
 
+(** ** The same in the vocabulary of C04 ([Rec/Chain.v])
+
+    [abs_file H Hm sd f]: the container [f] (with the sidecar table [sd] of its directory)
+    as a file of the chain model — [hdf5_hashsum] present iff committed and equal to the
+    digest [H] of the payload on disk, manifest link (with its stub mark) and sidecar with
+    digests [Hm].  [stub_free l]: only containers without predecessor carry a stub mark. *)
+
+(** A chain that passes the checks of the handle model is coherent in the sense of C04's
+    declarative specification. *)
+Theorem C02_chain_is_coherent : forall (P : Type) (H : P -> N) (Hm : N -> N) mfm sd (l : list (file (@cont P))),
+  chain_ok l = true -> stub_free l ->
+  (mfm = true -> forall nw ol, l = nw :: ol -> mf_check sd nw = true) ->
+  Chain.coherent mfm false (map (abs_file H Hm sd) l).
+Proof. exact @coherent_abs. Qed.
+Print Assumptions C02_chain_is_coherent.
+
+(** The file set of the record right after a commit is coherent; after any later
+    non-truncating operations all its files are still in the directory, its abstraction is
+    literally the same, hence it is still coherent and [open_check] still accepts it. *)
+Theorem C02_snapshot_coherent : forall (P : Type) (empty : P) (mergepay : list P -> P)
+    (H : P -> N) (Hm : N -> N) m (w : world P) h w1 ops,
+  good w -> here w = POpen h -> chain_ok (mine (hs h)) = true ->
+  step empty mergepay (FCommit m) w = (w1, Ok) -> stub_free (wdir w1) ->
+  exists h1, here w1 = POpen h1 /\
+    let S := mine (hs h1) in
+    Chain.coherent (hmf h1) false (map (abs_file H Hm (hsides w1)) S) /\
+    ((forall f, In f S -> safe_for ops (fname f)) ->
+     let w' := run empty mergepay ops w1 in
+     incl S (wdir w') /\
+     map (abs_file H Hm (hsides w')) S = map (abs_file H Hm (hsides w1)) S /\
+     Chain.coherent (hmf h1) false (map (abs_file H Hm (hsides w')) S) /\
+     Chain.open_check (hmf h1) false (map (abs_file H Hm (hsides w')) S) <> None).
+Proof. exact @snapshot_coherent. Qed.
+Print Assumptions C02_snapshot_coherent.
+
+(** Every older part of a chain is coherent as well (by [C04_prefix_ok]): the file sets of
+    ALL earlier commits of a record are valid records. *)
+Theorem C02_older_part_coherent : forall (P : Type) (H : P -> N) (Hm : N -> N) mfm sd
+    (newer older : list (file (@cont P))),
+  chain_ok (newer ++ older) = true -> stub_free (newer ++ older) -> older <> [] ->
+  (mfm = true -> forall nw ol, (newer ++ older)%list = nw :: ol -> mf_check sd nw = true) ->
+  (mfm = true -> forall k, In k older -> mf_check sd k = true) ->
+  Chain.coherent mfm false (map (abs_file H Hm sd) older).
+Proof. exact @older_part_coherent. Qed.
+Print Assumptions C02_older_part_coherent.
+
 (** The exclusion is necessary: [delete_files] (which mode 'w' calls) removes committed
     files of the record it addresses. *)
 Theorem C02_truncation_is_excluded_for_a_reason : forall (P : Type) (empty : P) (mergepay : list P -> P)
@@ -171,7 +218,7 @@ Definition later : list (fop pay) :=
 
 Example build_result :
   map (fun f => (fname f, fcommitted f, fpay f)) (wdir (xrun build empty_world))
-  = [("foo.p1.ih5", true, (["tk2"], Some 5%N)); ("foo.ih5", true, (["tk1"], Some 3%N))]
+  = [("foo.p1.ih5", true, (["tk2"], Some (5%N, false))); ("foo.ih5", true, (["tk1"], Some (3%N, false)))]
   /\ hsides (xrun build empty_world) = [("foo.p1.ih5", 5%N); ("foo.ih5", 3%N)].
 Proof. vm_compute. split; reflexivity. Qed.
 
@@ -210,6 +257,48 @@ Example later_snapshot_opens :
   | Refused _ _ => False
   end.
 Proof. vm_compute. reflexivity. Qed.
+
+(** In C04's terms: the two files of the build, taken from the LATER directory, are accepted
+    by [open_check] (digest functions: length of the token list, manifest id + 100). *)
+Example later_snapshot_accepted :
+  let w := xrun later (xrun build empty_world) in
+  match file_at "foo.ih5" (wdir w), file_at "foo.p1.ih5" (wdir w) with
+  | Some b, Some p =>
+      option_map (map Chain.fpid)
+        (Chain.open_check true false
+           (map (abs_file (fun t : pay => N.of_nat (List.length t)) (fun m => m + 100)%N (hsides w)) [p; b]))
+      = Some [2%N; 4%N]
+  | _, _ => False
+  end.
+Proof. vm_compute. reflexivity. Qed.
+
+(** [create_stub] from the manifest beside "foo.p1.ih5", into the same and into the other
+    directory: two new committed files (record id, index and patch id of "foo.p1.ih5", no
+    predecessor, skeleton of tk1 + tk2, fresh manifests 90 / 91); the files of "foo" and their
+    sidecars are what they were; a second stub of the same name is refused. *)
+Definition stubs : list (fop pay) :=
+  [FStub false "foo-stub" "foo.p1.ih5" 90; FStub true "foo" "foo.p1.ih5" 91;
+   FStub false "foo-stub" "foo.ih5" 92; FStub false "nomf" "foo.p7.ih5" 93;
+   FOpen true MRp (ByName "foo-stub") 94 95; tok "tk9"; FClose true 96; FDrop].
+
+Example stubs_result :
+  let w := xrun stubs (xrun build empty_world) in
+  map (fun f => (fname f, frec f, fidx f, fid f, fprev f, fcommitted f, fpay f))
+      (filter (fun f => negb (matches "foo" (fname f))) (wdir w))
+  = [("foo-stub.p2.ih5", 1%N, 2%N, 95%N, Some 4%N, true, (["tk9"], Some (96%N, false)));
+     ("foo-stub.ih5", 1%N, 1%N, 4%N, None, true, (["tk1"; "tk2"], Some (90%N, true)))]
+  /\ map (fun f => (fname f, fst (fpay f))) (other w) = [("foo.ih5", ["tk1"; "tk2"])].
+Proof. vm_compute. split; reflexivity. Qed.
+
+Example stubs_keep_committed :
+  forall nm, In nm ["foo.ih5"; "foo.p1.ih5"] ->
+  file_at nm (wdir (xrun stubs (xrun build empty_world))) = file_at nm (wdir (xrun build empty_world))
+  /\ side_of nm (hsides (xrun stubs (xrun build empty_world))) = side_of nm (hsides (xrun build empty_world))
+  /\ safe_for stubs nm.
+Proof.
+  intros nm [E|[E|[]]]; subst nm; (split; [vm_compute; reflexivity|split; [vm_compute; reflexivity|]]);
+    unfold safe_for, stubs; repeat (constructor; [vm_compute; reflexivity|]); constructor.
+Qed.
 
 (** Mode 'w' on the record itself is what the hypothesis excludes — and it does destroy. *)
 Example w_is_not_safe : ~ safe_for [FOpen false MW (ByName "foo") 70 71 : fop pay] "foo.ih5".
